@@ -95,7 +95,7 @@ type Chooser interface {
 type Result struct {
 	Cfg        Config   `json:"cfg"`
 	Events     []Event  `json:"events"`
-	Ret        string   `json:"ret"`  // nil | err | "" (did not return)
+	Ret        string   `json:"ret"` // nil | err | "" (did not return)
 	RetErr     string   `json:"ret_err,omitempty"`
 	MaxRunning int      `json:"max_running"`
 	Violations []string `json:"violations"` // property monitors on real visitor events
